@@ -456,13 +456,28 @@ def _db_concat_expr(dbmodel, expression):
 
 
 def _trimstr(dbmodel, expression):
+    # trimstr(start, stop): start inclusive, stop exclusive (0-based); SUBSTR takes a 1-based start and a LENGTH
+    start = expression.args[1]
+    stop = expression.args[2]
+    if isinstance(start, data_algebra.expr_rep.Value) and isinstance(
+        stop, data_algebra.expr_rep.Value
+    ):
+        length_sql = str(max(0, int(stop.value) - int(start.value)))
+    else:
+        length_sql = (
+            "("
+            + dbmodel.expr_to_sql(stop, want_inline_parens=True)
+            + " - "
+            + dbmodel.expr_to_sql(start, want_inline_parens=True)
+            + ")"
+        )
     return (
         "SUBSTR("
         + dbmodel.expr_to_sql(expression.args[0], want_inline_parens=False)
         + ", 1 + "
-        + dbmodel.expr_to_sql(expression.args[1], want_inline_parens=False)
+        + dbmodel.expr_to_sql(start, want_inline_parens=False)
         + ", "
-        + dbmodel.expr_to_sql(expression.args[2], want_inline_parens=False)
+        + length_sql
         + ")"
     )
 
